@@ -564,10 +564,11 @@ def _apply(g, op, x, cfg):
     keep = r > 2 and d(st.booleans())
     oshape = shape[:-1] + [o] if (keep or r == 2) else [int(np.prod(shape[:-1])), o]
     w = g.const_f([o, f], f, op)
-    bias = g.const_f([o], 1, op, role='b') if d(st.integers(0, 3)) else -1
+    plain = bool(cfg.get('fc_plain')) and d(st.integers(0, 3)) > 0   # no bias, NONE/RELU
+    bias = -1 if plain else (g.const_f([o], 1, op, role='b') if d(st.integers(0, 3)) else -1)
     y = g.new_act(oshape, op)
     g.node(op, [x, w, bias], [y],
-           {'fusedActivationFunction': act(), 'weightsFormat': 0,
+           {'fusedActivationFunction': d(st.sampled_from([0, 1])) if plain else act(), 'weightsFormat': 0,
             'keepNumDims': bool(keep), 'asymmetricQuantizeInputs': False})
   elif op == 'GATE':
     # y = SELECT(GREATER(x, thr), x, c): the mask is a BOOL tensor
@@ -866,13 +867,15 @@ def model_specs(draw, **kw):
   for si in range(nsg):
     g = _SG(names, si, draw, cfg)
     sgs.append(g)
-    fam = draw(st.sampled_from([2, 2, 3, 4, 4]))
+    fam = cfg['force_fam'] if cfg.get('force_fam') else draw(st.sampled_from([2, 2, 3, 4, 4]))
     nin = draw(st.integers(1, 2))
     for _ in range(nin):
       if fam == 2 and cfg.get('dim_choices'):
         shape = [draw(st.integers(1, 2)), draw(st.sampled_from(cfg['dim_choices']))]
       elif fam == 2:
         shape = [draw(st.integers(1, 3)), draw(st.integers(2, 8))]
+      elif fam == 3 and cfg.get('force_fam') and cfg.get('dim_choices'):
+        shape = [draw(st.integers(1, 2)), draw(st.integers(1, 4)), draw(st.sampled_from(cfg['dim_choices']))]
       elif fam == 3:
         shape = [draw(st.integers(1, 2)), draw(st.integers(1, 4)), draw(st.integers(2, 8))]
       else:
